@@ -34,3 +34,25 @@ func DumpHandlers(c *Ctx, kind string) {
 	sort.Strings(ks)
 	fmt.Println("opaque:", ks)
 }
+
+// DumpFlow prints the flow model of a declared function.
+func DumpFlow(c *Ctx, name string) {
+	fn := c.P.Func(name)
+	if fn == nil {
+		fmt.Println("no such function")
+		return
+	}
+	x := c.flow(fn, map[string]string{})
+	fmt.Printf("%s: %d abstract states, %d effects, %d exits\n", name, x.States, len(x.Effects), len(x.Exits))
+	for _, e := range x.Effects {
+		fmt.Printf("  EFFECT %-22s %s %v\n       {%s}\n", e.Class, c.P.Pos(e.Pos), e.Detail, gea.CubeString(e.Cube))
+	}
+	for _, e := range x.Exits {
+		var seen []string
+		for k, v := range e.Seen {
+			seen = append(seen, fmt.Sprintf("%s:%d", k, v))
+		}
+		sort.Strings(seen)
+		fmt.Printf("  EXIT %s %s ret=%v seen=%v\n       {%s}\n", e.Kind, c.P.Pos(e.Pos), e.Ret, seen, gea.CubeString(e.Cube))
+	}
+}
